@@ -184,3 +184,21 @@ def _never(ex, st):
 
 
 REG.constants["pyanalyze.value.NO_RETURN_VALUE"] = _never
+
+
+@spec_function()
+def flat_member(ex, st, m, v):
+    """m is one of the values that flattening v produces: v itself when v is not union-like, a member of
+    the union, or a member of the annotated union re-annotated with the wrapper's metadata"""
+    ex.note_class("MultiValuedValue"); ex.note_class("AnnotatedValue")
+    mt, vt = box(m, st), box(v, st)
+    mvv = CLASSES.const("MultiValuedValue")
+    i = fresh("fm", IntS)
+    vals = unS(fld("vals")(vt))
+    ivals = unS(fld("vals")(fld("value")(vt)))
+    ann = uf("fn:pyanalyze.value.annotate_value", V, V, V)
+    return S_bool(z3.Or(
+        z3.And(z3.Not(union_like_t(vt)), mt == vt),
+        z3.And(typeof(vt) == mvv, z3.Exists([i], z3.And(0 <= i, i < Q.slen(vals), mt == Q.at(vals, i)))),
+        z3.And(typeof(vt) == CLASSES.const("AnnotatedValue"), typeof(fld("value")(vt)) == mvv,
+               z3.Exists([i], z3.And(0 <= i, i < Q.slen(ivals), mt == ann(Q.at(ivals, i), fld("metadata")(vt)))))))
